@@ -137,4 +137,44 @@ invariant: the parallel phase may be started from it -/
 theorem checkInit_ginv (s : Str) (S : Pivs) (h : checkInit s S = true) : GInv s ⟨S, remainRows s S, []⟩ :=
   ⟨checkInit_sound s S h, by simp, remainRows_nodup s S, by simp, remainRows_not_pivot s S, by simp⟩
 
+/-! ### the sequential phases always return (no `err`: there is no fuel in them) -/
+
+theorem bind_ne_err {α β} {x : Res α} {f : α → Res β} (hx : x ≠ .err) (hf : ∀ a, f a ≠ .err) :
+    (x >>= f) ≠ .err := by
+  cases x with
+  | ok a => exact hf a
+  | err => exact absurd rfl hx
+  | panic => intro h; cases h
+
+theorem set_ne_err (S : Pivs) (i j : Nat) : S.set i j ≠ .err := by
+  unfold Pivs.set; split <;> intro h <;> cases h
+
+theorem flLoop_ne_err (s : Str) (is : List Nat) : ∀ S, flLoop s is S ≠ .err := by
+  induction is with
+  | nil => intro S h; cases h
+  | cons i is ih =>
+    intro S
+    rw [flLoop]
+    split
+    · exact ih S
+    · split
+      · exact bind_ne_err (set_ne_err S _ _) (fun S' => ih S')
+      · exact ih S
+
+theorem flColLoop_ne_err (s : Str) (is : List Nat) : ∀ occ S, flColLoop s is occ S ≠ .err := by
+  induction is with
+  | nil => intro occ S h; cases h
+  | cons i is ih =>
+    intro occ S
+    rw [flColLoop]
+    split
+    · exact ih occ S
+    · exact bind_ne_err (set_ne_err S _ _) (fun S' => ih _ S')
+
+theorem initState_ne_err (s : Str) : initState s ≠ .err := by
+  unfold initState seqPhases
+  refine bind_ne_err (bind_ne_err ?_ ?_) (fun S h => by cases h)
+  · exact flLoop_ne_err s _ _
+  · intro S; exact flColLoop_ne_err s _ _ _
+
 end Yuiv.C11
